@@ -1124,6 +1124,7 @@ impl<R: Read> Revertable for LinearPerspective<R> {
     fn checkpoint(&self) -> Checkpoint {
         Checkpoint {
             index: self.commands.len(),
+            pending: self.current_updates.len(),
         }
     }
 
@@ -1131,10 +1132,12 @@ impl<R: Read> Revertable for LinearPerspective<R> {
         // Equal command count alone does not mean clean: a rule that wrote
         // facts and then failed leaves its writes pending in
         // `facts`/`current_updates` without having added a command. But
-        // every fact write pushes onto `current_updates`, so an empty
-        // buffer at equal command count means the fact overlay is untouched
-        // since the checkpoint and there is nothing to rebuild.
-        if checkpoint.index == self.commands.len() && self.current_updates.is_empty() {
+        // every fact write pushes onto `current_updates`, so an unchanged
+        // buffer length at equal command count means the fact overlay is
+        // untouched since the checkpoint and there is nothing to rebuild.
+        if checkpoint.index == self.commands.len()
+            && checkpoint.pending == self.current_updates.len()
+        {
             return Ok(());
         }
 
@@ -1144,12 +1147,25 @@ impl<R: Read> Revertable for LinearPerspective<R> {
             );
         }
 
+        // The writes that were pending when the checkpoint was taken are
+        // still the first entries of `current_updates`, or, if a command was
+        // added since, the first updates of that command. They were visible
+        // at the checkpoint, so they survive the revert.
+        let pending: Vec<Update> = match self.commands.get(checkpoint.index) {
+            Some(data) => &data.updates,
+            None => &self.current_updates,
+        }
+        .get(..checkpoint.pending)
+        .assume("a checkpoint's pending writes are a prefix of the writes made since")?
+        .to_vec();
+
         self.commands.truncate(checkpoint.index);
         self.facts.clear();
-        self.current_updates.clear();
         for data in &self.commands {
             self.facts.apply_updates(&data.updates)?;
         }
+        self.facts.apply_updates(&pending)?;
+        self.current_updates = pending;
 
         Ok(())
     }
